@@ -1304,6 +1304,12 @@ func TestVerifC11(t *testing.T) {
 			vinput{id: fmt.Sprintf("hyd%d", i), data: vdenseHyphen(d.data, 3, "")},
 			vinput{id: fmt.Sprintf("hyi%d", i), data: vdenseHyphen(vdenseHyphen(d.data, 3, "   "), 2, "")})
 	}
+	// a URL scheme that starts a word capitalised (Normalize keeps the case of a word's first rune)
+	for i, d := range vnamed("Header/Apache-2.0/header.txt", "License/Apache-2.0/pristine.txt") {
+		t := strings.Replace(string(d.data), "http://www.apache.org", "Https://www.apache.org", 1)
+		t = strings.Replace(t, "http://www.apache.org", "HTTPS://www.apache.org", 1)
+		inputs = append(inputs, vinput{id: fmt.Sprintf("caphttps%d", i), data: []byte(t)})
+	}
 	inputs = append(inputs, vinput{id: "hyfirst", data: append([]byte("(-\n) see the\nCopyright 20-\n20 Foo\n"), vnamed("License/MIT/a.txt")[0].data...)})
 	// list markers in upper and mixed case at line starts ("II.", "IV:", "A.", "Iii.")
 	for i, d := range vnamed("License/MIT/a.txt", "License/BSD-3-Clause/a.txt", "License/NPL-1.1/license.txt", "License/Zlib/license.txt") {
